@@ -5,6 +5,7 @@ package drivers
 
 import (
 	"bufio"
+	"context"
 	"encoding/json"
 	"fmt"
 	"net"
@@ -78,6 +79,78 @@ func splitForm(form string, versions []int, mk func(v int) vp.SetCfg) (uint, *vp
 	return legacyV, legacy, versioned
 }
 
+// runVersionTestMode: the plugin is served in this process in test mode (ServeConfig.Test) with the raw version
+// list in the process environment; a client built from the reattach configuration it hands out must report the
+// version whose set it is then served. (One at a time: the list is read from the process environment.)
+func runVersionTestMode(c verCase, pc *vp.PluginCfg) map[string]interface{} {
+	out := map[string]interface{}{"served": false, "line_version": -1, "line_proto": "-", "plugin_tag": -1, "negotiated": -1}
+	if c.NoList {
+		os.Unsetenv("PLUGIN_PROTOCOL_VERSIONS")
+	} else {
+		var toks []string
+		for _, t := range c.Tokens {
+			toks = append(toks, t.Text)
+		}
+		os.Setenv("PLUGIN_PROTOCOL_VERSIONS", strings.Join(toks, ","))
+	}
+	defer os.Unsetenv("PLUGIN_PROTOCOL_VERSIONS")
+	ctx, cancel := context.WithCancel(context.Background())
+	defer cancel()
+	rch := make(chan *plugin.ReattachConfig, 1)
+	closeCh := make(chan struct{})
+	sc := pc.ServeConfig()
+	sc.Logger = hclog.NewNullLogger()
+	sc.Test = &plugin.ServeTestConfig{Context: ctx, ReattachConfigCh: rch, CloseCh: closeCh}
+	go plugin.Serve(sc)
+	var rc *plugin.ReattachConfig
+	select {
+	case rc = <-rch:
+	case <-time.After(5 * time.Second):
+		out["attach_err"] = "no reattach configuration"
+		return out
+	}
+	out["served"] = true
+	out["line_version"] = rc.ProtocolVersion
+	out["line_proto"] = string(rc.Protocol)
+	cl := plugin.NewClient(&plugin.ClientConfig{
+		HandshakeConfig:  plugin.HandshakeConfig{MagicCookieKey: vp.CookieKey, MagicCookieValue: vp.CookieValue},
+		Plugins:          vp.Set("grpc", "host"), Logger: hclog.NewNullLogger(), Reattach: rc,
+		AllowedProtocols: []plugin.Protocol{plugin.ProtocolNetRPC, plugin.ProtocolGRPC}})
+	defer cl.Kill()
+	func() {
+		defer func() {
+			if r := recover(); r != nil {
+				out["attach_err"] = fmt.Sprint("panic: ", r)
+			}
+		}()
+		cp, err := cl.Client()
+		if err != nil {
+			out["attach_err"] = err.Error()
+			return
+		}
+		out["negotiated"] = cl.NegotiatedVersion()
+		raw, err := cp.Dispense("v")
+		if err != nil {
+			out["attach_err"] = "dispense: " + err.Error()
+			return
+		}
+		r, err := raw.(*vp.Stub).Do(vp.Cmd{Op: "tag"})
+		if err != nil {
+			out["attach_err"] = "tag: " + err.Error()
+			return
+		}
+		if pt, err := strconv.Atoi(r.S); err == nil {
+			out["plugin_tag"] = pt
+		}
+	}()
+	cancel()
+	select {
+	case <-closeCh:
+	case <-time.After(3 * time.Second):
+	}
+	return out
+}
+
 func runVersionCase(c verCase, bin string) map[string]interface{} {
 	out := map[string]interface{}{}
 	protoOf := map[int]string{}
@@ -90,6 +163,9 @@ func runVersionCase(c verCase, bin string) map[string]interface{} {
 	pc.LegacyVersion, pc.Legacy, pc.Versioned = splitForm(c.ServedForm, sv, func(v int) vp.SetCfg {
 		return vp.SetCfg{Proto: protoOf[v], Tag: strconv.Itoa(v)}
 	})
+	if c.Layer == "testmode" {
+		return runVersionTestMode(c, pc)
+	}
 	if c.Layer == "plugin" {
 		pcb, _ := json.Marshal(pc)
 		cmd := exec.Command(bin)
@@ -276,8 +352,20 @@ func TestVersionCases(t *testing.T) {
 		}()
 	}
 	for _, c := range cases {
-		ch <- c
+		if c.Layer != "testmode" {
+			ch <- c
+		}
 	}
 	close(ch)
 	wg.Wait()
+	// test-mode cases read the version list from this process's environment: one at a time, after the others
+	for _, c := range cases {
+		if c.Layer == "testmode" {
+			cw.begin(c.Name)
+			o := runVersionCase(c, bin)
+			cw.end(c.Name)
+			ow.write(map[string]interface{}{"name": c.Name, "layer": c.Layer, "host": c.Host, "host_form": c.HostForm,
+				"served": c.Served, "served_form": c.ServedForm, "grpc_factory": c.GRPCFactory, "tokens": c.Tokens, "no_list": c.NoList, "out": o})
+		}
+	}
 }
